@@ -503,6 +503,6 @@ def run(ctx):
         gm = None
     ctx.stat("grid_setup_folded", gm is not None)
     attrs = rule_a(ctx, f, gm)
-    rule_b(ctx, f, attrs, gm)
-    rule_c(ctx, f, gm)
-    rule_d(ctx)
+    ctx.guard(rule_b, ctx, f, attrs, gm)
+    ctx.guard(rule_c, ctx, f, gm)
+    ctx.guard(rule_d, ctx)
